@@ -1211,6 +1211,7 @@ func runC03(c *core.Ctx) core.Meta {
 	checkModifierHelpers(c, alus)
 	checkSCCWidth(c, handlers)
 	checkBitSemantics(c, handlers)
+	checkClassCoverage(c, handlers)
 	checkLoadWidths(c, handlers)
 	checkWideMultiply(c, handlers)
 
